@@ -10,11 +10,26 @@ func spanClass(span uint64) {
 	if thorough() {
 		return
 	}
-	n := 0
-	for x := span; x != 0; x >>= 1 {
-		n++
+	assume(lenIn(span, 0, 1, 2, 8, 9, 17, 32, 33, 55, 56, 57, 59, 60, 61, 63, 64))
+}
+
+// lenIn reports (as one symbolic condition, without forking) whether the bit length of x is
+// one of the listed values.
+func lenIn(x uint64, lens ...int) bool {
+	ok := false
+	for _, n := range lens {
+		var c bool
+		switch {
+		case n == 0:
+			c = x == 0
+		case n == 64:
+			c = x >= 1<<63
+		default:
+			c = bAnd(x >= uint64(1)<<uint(n-1), x < uint64(1)<<uint(n))
+		}
+		ok = bOr(ok, c)
 	}
-	assume(n <= 2 || n == 8 || n == 9 || n == 17 || n == 32 || n == 33 || n == 55 || n == 56 || n == 57 || n == 59 || n == 60 || n == 61 || n == 63 || n == 64)
+	return ok
 }
 
 func streamLen(name string, quick, deep int) int {
